@@ -86,6 +86,12 @@ def lookupD {β : Type} (d : β) (kvs : List (String × β)) (k : String) : β :
   | some v => v
   | none => d
 
+/-- `Processor.replace(changes)` (dask path) and `create_new_processor` (sequential path): `Processor.set` one key after
+the other, in the order of the mapping; `set` is arbitrary — setters may depend on each other (APD: the avalanche gain
+setter recomputes the common voltage, the voltage setters recompute the gain), so the order is behaviour -/
+def applyChanges {σ β : Type} (set : σ → String → β → σ) (s : σ) (kvs : List (String × β)) : σ :=
+  kvs.foldl (fun s kv => set s kv.1 kv.2) s
+
 /-- REPAIRED `SequentialMode.create_params`: one tuple per entry of `get_parameters_item`, in key order -/
 def seqTuples {α : Type} (defaults : String → α) (ps : List (Param α)) : List (List α) :=
   let keys := ((enabledSteps ps).map (·.key)).eraseDups
